@@ -215,12 +215,26 @@ package fsm
 //@   pure
 //@   ensures s != nil ==> result != nil && fresh(result)
 
+// The signature pass: every signature queued in the batch verifier has an entry in batchToTxIdx (the two
+// stay the same length after every transaction, whether or not its check failed), so a failed batch index
+// is always charged to a transaction of this block and never runs off the end.
+//@ func (*lib/crypto.BatchVerifier).Count
+//@   pure
+//@   ensures[count] b != nil ==> result == b.count
+//@ func lib/crypto.NewBatchVerifier
+//@   ensures[empty] b != nil && fresh(b) && b.count == 0
 // In the main loop of ApplyTransactions, when applying a transaction fails, by the end of that
 // iteration: the working store is again the store the iteration started with (the nested
 // transaction holding the partial writes is dropped, never flushed), every FSM cache is dropped,
 // the per-transaction events are cleared and the slash tracker is the pre-transaction clone.
 //@ func (*StateMachine).ApplyTransactions
 //@   callsite Flush requires[onlysuccess] isnil(e)
+//@   loop 1 invariant[aligned] batchVerifier != nil && len(batchToTxIdx) == batchVerifier.count
+//@   loop 2 invariant[fill] len(batchToTxIdx) == j && (preCount <= postCount ==> j <= postCount)
+// the store a transaction's nested txn is wrapped over is exactly the store restored after it: the snapshot is
+// taken after the over-size wrapper (if any) is installed, so over-size transactions can never flush into the
+// block's real working store
+//@   callsite TxnWrap@3 requires[snapshot] currentStore == s.store
 //@   callsite ApplyTransaction requires[notfailed] !indom(failedCheckTxs, i)
 //@   callsite ApplyTransaction requires[firstseen] !found && indom(deDuplicator.m, hashString) && callee.txHash == hashString
 //@   loop 4 iterensures[store] !isnil(currentStore) ==> s.store == currentStore
@@ -336,6 +350,8 @@ package fsm
 //@   pure
 // a transaction passes CheckTx only with a sender that the message's rules authorize
 //@ func (*StateMachine).CheckTx
+// (CheckTx only ever adds to the batch verifier: ASSUMED - several of its callees are outside the frame inference)
+//@   assumed[batchgrows] batchVerifier != nil ==> batchVerifier.count >= old(batchVerifier.count)
 //@   ensures[authorized] isnil(err) && !result.plugin ==> !isnil(result.sender) && authorizedFor(result.msg, addrOf(result.sender))
 //@   ensures[stakesigner] isnil(err) && !result.plugin && typeis(result.msg, *MessageStake) ==> bytes(dyn(result.msg, *MessageStake).Signer) == addrOf(result.sender)
 //@   ensures[editsigner] isnil(err) && !result.plugin && typeis(result.msg, *MessageEditStake) ==> bytes(dyn(result.msg, *MessageEditStake).Signer) == addrOf(result.sender)
@@ -379,6 +395,8 @@ package fsm
 //@   modifies ghost(kvHas), ghost(stakeOf), ghost(stakeSum), ghost(valOutput)
 //@   ensures isnil(err) ==> stakeOf() == old(store(stakeOf(), bytes(validator.Address), validator.StakedAmount)) && stakeSum(s) == old(stakeSum(s)) - old(stakeOf(bytes(validator.Address))) + validator.StakedAmount
 //@   ensures isnil(err) ==> valOutput() == old(store(valOutput(), bytes(validator.Address), bytes(validator.Output)))
+//@   ensures isnil(err) ==> kvHas() == old(store(kvHas(), valKey(bytes(validator.Address)), true))
+//@   ensures !isnil(err) ==> kvHas() == old(kvHas())
 //@   ensures !isnil(err) ==> stakeOf() == old(stakeOf()) && stakeSum(s) == old(stakeSum(s)) && valOutput() == old(valOutput())
 //@ func (*StateMachine).SetCommittees
 //@   trusted
@@ -414,6 +432,12 @@ package fsm
 //@   ensures[delegated] result == nil ==> supDelegated(s) == old(supDelegated(s)) + amount
 //@   ensures[frame] supTotal(s) == old(supTotal(s)) && supStaked(s) == old(supStaked(s)) && acctBal() == old(acctBal()) && poolBal() == old(poolBal()) && allTokens(s) == old(allTokens(s)) && stakeOf() == old(stakeOf())
 //@   ensures[failsafe] result != nil ==> supDelegated(s) == old(supDelegated(s))
+//@ func (*StateMachine).SubFromStakedSupply
+//@   ensures[staked] result == nil ==> supStaked(s) == old(supStaked(s)) - amount && old(supStaked(s)) >= amount
+//@   ensures[frame] supTotal(s) == old(supTotal(s)) && supDelegated(s) == old(supDelegated(s)) && acctBal() == old(acctBal()) && poolBal() == old(poolBal()) && allTokens(s) == old(allTokens(s)) && stakeOf() == old(stakeOf())
+//@ func (*StateMachine).SubFromDelegateSupply
+//@   ensures[delegated] result == nil ==> supDelegated(s) == old(supDelegated(s)) - amount && old(supDelegated(s)) >= amount
+//@   ensures[frame] supTotal(s) == old(supTotal(s)) && supStaked(s) == old(supStaked(s)) && acctBal() == old(acctBal()) && poolBal() == old(poolBal()) && allTokens(s) == old(allTokens(s)) && stakeOf() == old(stakeOf())
 
 // stake: the verified signer pays exactly the stake; the new validator record holds exactly that amount
 //@ func (*StateMachine).HandleMessageStake
@@ -479,6 +503,11 @@ package fsm
 //@ ghost kvHas(k BSeq) bool
 //@ spec func unstakeKey(height int, addr BSeq) BSeq
 //@ spec func pausedKey(height int, addr BSeq) BSeq
+//@ spec func valKey(addr BSeq) BSeq
+// the three key families live under different prefixes (ASSUMED here; prefix freedom is C19's subject)
+//@ axiom[keyspaces1] forall h int, a BSeq, h2 int, a2 BSeq :: unstakeKey(h, a) != pausedKey(h2, a2)
+//@ axiom[keyspaces2] forall a BSeq, h2 int, a2 BSeq :: valKey(a) != unstakeKey(h2, a2)
+//@ axiom[keyspaces3] forall a BSeq, h2 int, a2 BSeq :: valKey(a) != pausedKey(h2, a2)
 //@ func (*StateMachine).Set
 //@   trusted
 //@   modifies ghost(kvHas)
@@ -503,12 +532,20 @@ package fsm
 // Every caller in the repository must establish this (requires-propagation).
 //@ func (*StateMachine).SetValidatorUnstaking
 //@   requires[notyet] validator.UnstakingHeight == 0 || validator.UnstakingHeight == finishUnstakingHeight
-//@   ensures[stake] result == nil && old(validator.StakedAmount == stakeOf(bytes(validator.Address))) ==> stakeSum(s) == old(stakeSum(s)) && stakeOf() == old(stakeOf())
-// a status change re-writes the record with the stake it was loaded with: no stake changes hands
+// markers follow the status: an unstaking validator has its unstaking marker at the recorded height and no
+// paused marker (it is written back unpaused); a paused validator has its paused marker; unpausing removes it
+//@   ensures[marker] result == nil ==> kvHas(unstakeKey(finishUnstakingHeight, addrOf(address))) && validator.UnstakingHeight == finishUnstakingHeight
+//@   ensures[unpaused] result == nil ==> validator.MaxPausedHeight == 0 && (old(validator.MaxPausedHeight) != 0 ==> !kvHas(pausedKey(old(validator.MaxPausedHeight), addrOf(address))))
+//@   ensures[stake] result == nil ==> stakeOf() == old(store(stakeOf(), bytes(validator.Address), validator.StakedAmount)) && stakeSum(s) == old(stakeSum(s)) - old(stakeOf(bytes(validator.Address))) + old(validator.StakedAmount)
+// a status change re-writes the record: the abstract stake of that validator becomes the record's StakedAmount
+// (unchanged when the record was loaded from state and not altered)
 //@ func (*StateMachine).SetValidatorPaused
-//@   ensures[stake] result == nil && old(validator.StakedAmount == stakeOf(bytes(validator.Address))) ==> stakeSum(s) == old(stakeSum(s)) && stakeOf() == old(stakeOf())
+//@   ensures[marker] result == nil ==> kvHas(pausedKey(maxPausedHeight, addrOf(address))) && validator.MaxPausedHeight == maxPausedHeight
+//@   ensures[stake] result == nil ==> stakeOf() == old(store(stakeOf(), bytes(validator.Address), validator.StakedAmount)) && stakeSum(s) == old(stakeSum(s)) - old(stakeOf(bytes(validator.Address))) + old(validator.StakedAmount)
 //@ func (*StateMachine).SetValidatorUnpaused
-//@   ensures[stake] result == nil && old(validator.StakedAmount == stakeOf(bytes(validator.Address))) ==> stakeSum(s) == old(stakeSum(s)) && stakeOf() == old(stakeOf())
+//@   ensures[marker] result == nil ==> !kvHas(pausedKey(old(validator.MaxPausedHeight), addrOf(address))) && validator.MaxPausedHeight == 0
+//@   ensures[others] result == nil ==> forall h int, a BSeq :: kvHas(unstakeKey(h, a)) == old(kvHas(unstakeKey(h, a)))
+//@   ensures[stake] result == nil ==> stakeOf() == old(store(stakeOf(), bytes(validator.Address), validator.StakedAmount)) && stakeSum(s) == old(stakeSum(s)) - old(stakeOf(bytes(validator.Address))) + old(validator.StakedAmount)
 //@   ensures[keeps] validator.StakedAmount == old(validator.StakedAmount) && validator.Address == old(validator.Address)
 // parameter reads do not write state
 //@ func (*StateMachine).GetParamsVal
@@ -516,18 +553,28 @@ package fsm
 //@   modifies cache.valParams
 //@   ensures isnil(err) ==> ptr != nil
 //@   ensures[checked] isnil(err) ==> wfValParams(ptr)
+// consensus parameters are read from the store on every call (no cache): a read
+//@ func (*StateMachine).GetParamsCons
+//@   trusted
+//@   pure
 // protocol-version switch: reads the consensus parameters (not cached)
 //@ func (*StateMachine).IsFeatureEnabled
 //@   trusted
 //@   pure
 //@ func (*StateMachine).SetValidatorUnstakingIfBelowMinimum
 //@   ensures[skip] old(validator.UnstakingHeight) != 0 ==> !result0 && result1 == nil
+//@   ensures[stake] result0 && result1 == nil ==> stakeOf() == old(store(stakeOf(), bytes(validator.Address), validator.StakedAmount)) && stakeSum(s) == old(stakeSum(s)) - old(stakeOf(bytes(validator.Address))) + old(validator.StakedAmount)
+//@   ensures[untouched] !result0 ==> stakeOf() == old(stakeOf()) && stakeSum(s) == old(stakeSum(s))
+//@   ensures[frame] acctBal() == old(acctBal()) && poolBal() == old(poolBal()) && acctSum(s) == old(acctSum(s)) && poolSum(s) == old(poolSum(s)) && supTotal(s) == old(supTotal(s)) && validator.StakedAmount == old(validator.StakedAmount)
 
 // deleting a validator record also removes its unstaking / paused markers, so no marker ever refers to
 // a validator that no longer exists (end-block processing of such a marker would fail every block)
 //@ func (*StateMachine).DeleteValidator
 //@   ensures[unstakemarker] result == nil && validator.UnstakingHeight != 0 ==> !kvHas(unstakeKey(validator.UnstakingHeight, bytes(validator.Address)))
 //@   ensures[pausedmarker] result == nil && validator.MaxPausedHeight != 0 ==> !kvHas(pausedKey(validator.MaxPausedHeight, bytes(validator.Address)))
+// (the record is removed through the raw store Delete: that this zeroes the validator's abstract stake is ASSUMED)
+//@   assumed[stake] result == nil ==> stakeOf() == old(store(stakeOf(), bytes(validator.Address), 0)) && stakeSum(s) == old(stakeSum(s)) - old(stakeOf(bytes(validator.Address)))
+//@   ensures[frame] acctBal() == old(acctBal()) && poolBal() == old(poolBal()) && acctSum(s) == old(acctSum(s)) && poolSum(s) == old(poolSum(s)) && supTotal(s) == old(supTotal(s))
 // committee / delegation index maintenance touches committee, delegate and supply-pool keys only
 // (assumed frame: these go through parameter reads and the store interface)
 //@ func (*StateMachine).DeleteCommittees
@@ -571,6 +618,10 @@ package fsm
 //@   callsite AddSlash requires[same] callee.chainId == chainId && bytes(callee.address) == bytes(validator.Address) && slashTotal == slashPct(s.slashTracker)[bytes(validator.Address)][chainId]
 //@   callsite SubFromTotalSupply requires[burn] stakeAfterSlash <= validator.StakedAmount && callee.amount == validator.StakedAmount - stakeAfterSlash
 //@   callsite SubFromTotalSupply requires[bounded] percent < 100 ==> 100 * stakeAfterSlash + 100 > validator.StakedAmount * (100 - percent)
+// a slash burns: what leaves the validator's stake leaves the recorded total too, whether the validator
+// survives the slash or is removed by it; no account or pool is touched
+//@   ensures[conserve] err == nil && old(validator.StakedAmount == stakeOf(bytes(validator.Address))) ==> drift(s) == old(drift(s))
+//@   ensures[moves] acctBal() == old(acctBal()) && poolBal() == old(poolBal()) && acctSum(s) == old(acctSum(s)) && poolSum(s) == old(poolSum(s))
 
 // the swap loop never divides by zero: the counter-chain reserve is positive on entry to the loop
 // and only grows
